@@ -432,6 +432,10 @@ func TestC15(t *testing.T) {
 	if t.Failed() {
 		return
 	}
+	runC15Stateful(t)
+	if t.Failed() {
+		return
+	}
 	// every truncation of a few generated programs is covered by "mut"; here: all short strings
 	idx, n := shardInfo()
 	maxLen := 2
